@@ -297,26 +297,29 @@ def setRev (w : W) (q : Quoted) (r : Rev) : W := { w with cl := { w.cl with revs
 def getObj (w : W) (h : Nat) : Option Obj := AList.get h w.cl.objs
 def setObj (w : W) (h : Nat) (x : Obj) : W := { w with cl := { w.cl with objs := AList.set h x w.cl.objs } }
 
+/-- a new local replica: `self._object_cache[obj.id] = obj; return obj` -/
+def freshObj (w : W) (i : Ident) (d : Data) : W × Out :=
+  ({ w with cl := { w.cl with objs := AList.set w.cl.next ⟨i, d, some (quote i)⟩ w.cl.objs,
+                               cache := AList.set i w.cl.next w.cl.cache, next := w.cl.next + 1 } }, .handle w.cl.next)
+
+/-- the cache part of `get_identifiable_by_couchdb_id`: a live replica with the right source is updated and returned,
+    otherwise the decoded object becomes the replica -/
+def adopt (w : W) (i : Ident) (d : Data) : W × Out :=
+  match AList.get i w.cl.cache with
+  | some h =>
+    match getObj w h with
+    | some old =>
+      if old.source = some (quote i) then (setObj w h { old with id := i, data := d }, .handle h)   -- old_obj.update_from(obj)
+      else freshObj w i d
+    | none => freshObj w i d
+  | none => freshObj w i d
+
 /-- `get_identifiable_by_couchdb_id` -/
 def getByCouchId (w : W) (cid : Ident) : W × Out :=
-  let q := quote cid
-  match request w ⟨.GET, .doc q, none, none⟩ with
+  match request w ⟨.GET, .doc (quote cid), none, none⟩ with
   | (w, .ok (.doc i rev d)) =>
     -- obj = data['data'] (an Identifiable with id i); generate_source(obj); set_couchdb_revision(url, data['_rev'])
-    let src := quote i
-    let w := setRev w q rev
-    let fresh : W × Out :=
-      let h := w.cl.next
-      ({ w with cl := { w.cl with objs := AList.set h ⟨i, d, some src⟩ w.cl.objs, cache := AList.set i h w.cl.cache,
-                                   next := h + 1 } }, .handle h)
-    match AList.get i w.cl.cache with
-    | some h =>
-      match getObj w h with
-      | some old =>
-        if old.source = some src then (setObj w h { old with id := i, data := d }, .handle h)   -- old_obj.update_from(obj)
-        else fresh
-      | none => fresh
-    | none => fresh
+    adopt (setRev w (quote cid) rev) i d
   | (w, .ok _) => (w, .raise .keyError)                       -- data['data'] missing
   | (w, .serverError 404) => (w, .raise .keyError)
   | (w, o) => (w, .raise (excOf o))
@@ -326,12 +329,10 @@ def add (w : W) (h : Nat) : W × Out :=
   match getObj w h with
   | none => (w, .badHandle)
   | some x =>
-    let q := quote x.id
-    match request w ⟨.PUT, .doc q, none, some x.data⟩ with
+    match request w ⟨.PUT, .doc (quote x.id), none, some x.data⟩ with
     | (w, .ok (.written _ rev)) =>
-      let w := setRev w q rev
-      let w := { w with cl := { w.cl with cache := AList.set x.id h w.cl.cache } }
-      (setObj w h { x with source := some q }, .unit)
+      (setObj { setRev w (quote x.id) rev with cl := { (setRev w (quote x.id) rev).cl with
+                  cache := AList.set x.id h (setRev w (quote x.id) rev).cl.cache } } h { x with source := some (quote x.id) }, .unit)
     | (w, .ok _) => (w, .raise .keyError)                     -- response["rev"] missing
     | (w, .serverError 409) => (w, .raise .keyError)
     | (w, o) => (w, .raise (excOf o))
@@ -364,8 +365,7 @@ def update (w : W) (h : Nat) : W × Out :=
     | some q =>
       match request w ⟨.GET, .doc q, none, none⟩ with
       | (w, .ok (.doc i rev d)) =>
-        let w := setRev w q rev
-        (setObj w h { x with id := i, data := d }, .unit)      -- store_object.update_from(data['data'])
+        (setObj (setRev w q rev) h { x with id := i, data := d }, .unit)      -- store_object.update_from(data['data'])
       | (w, .ok _) => (w, .raise .keyError)
       | (w, .serverError 404) => (w, .raise .keyError)
       | (w, o) => (w, .raise (excOf o))
@@ -377,12 +377,11 @@ def discardWith (fixed : Bool) (w : W) (h : Nat) (x : Obj) (q : Quoted) (rev : R
   match request w ⟨.DELETE, .doc q, some rev, none⟩ with
   | (w, .ok _) =>
     if !fixed && (AList.get q w.cl.revs).isNone then (w, .raise .keyError)     -- delete_couchdb_revision: del _revision_store[url]
+    else if !fixed && (AList.get x.id w.cl.cache).isNone then                  -- del self._object_cache[x.id]
+      ({ w with cl := { w.cl with revs := AList.erase q w.cl.revs } }, .raise .keyError)
     else
-      let w := { w with cl := { w.cl with revs := AList.erase q w.cl.revs } }
-      if !fixed && (AList.get x.id w.cl.cache).isNone then (w, .raise .keyError) -- del self._object_cache[x.id]
-      else
-        let w := { w with cl := { w.cl with cache := AList.erase x.id w.cl.cache } }
-        (setObj w h { x with source := none }, .unit)
+      (setObj { w with cl := { w.cl with revs := AList.erase q w.cl.revs, cache := AList.erase x.id w.cl.cache } } h
+         { x with source := none }, .unit)
   | (w, .serverError 404) => (w, .raise .keyError)
   | (w, .serverError 409) => (w, .raise .conflict)
   | (w, o) => (w, .raise (excOf o))
@@ -392,13 +391,12 @@ def discardG (fixed : Bool) (w : W) (h : Nat) (safe : Bool) : W × Out :=
   match getObj w h with
   | none => (w, .badHandle)
   | some x =>
-    let q := quote x.id
-    match AList.get q w.cl.revs, safe with
-    | some rev, true => discardWith fixed w h x q rev
+    match AList.get (quote x.id) w.cl.revs, safe with
+    | some rev, true => discardWith fixed w h x (quote x.id) rev
     | none, true => (w, .raise .conflict)                      -- "No CouchDBRevision found for the object"
     | _, false =>
-      match request w ⟨.HEAD, .doc q, none, none⟩ with
-      | (w, .headers (some rev)) => discardWith fixed w h x q rev
+      match request w ⟨.HEAD, .doc (quote x.id), none, none⟩ with
+      | (w, .headers (some rev)) => discardWith fixed w h x (quote x.id) rev
       | (w, .headers none) => (w, .raise .keyError)            -- headers['ETag'] missing
       | (w, .serverError 404) => (w, .raise .keyError)
       | (w, o) => (w, .raise (excOf o))
@@ -437,8 +435,7 @@ def iter (w : W) : W × Out :=
 
 /-- the application creates a local object (not yet in any store) -/
 def mk (w : W) (i : Ident) (d : Data) : W × Out :=
-  let h := w.cl.next
-  ({ w with cl := { w.cl with objs := AList.set h ⟨i, d, none⟩ w.cl.objs, next := h + 1 } }, .handle h)
+  ({ w with cl := { w.cl with objs := AList.set w.cl.next ⟨i, d, none⟩ w.cl.objs, next := w.cl.next + 1 } }, .handle w.cl.next)
 
 /-- local modification of an object -/
 def modify (w : W) (h : Nat) (d : Data) : W × Out :=
